@@ -70,29 +70,52 @@ func (in *eInst) String() string {
 
 // Desc is the canonical replay description.
 func (in *eInst) Desc() map[string]any {
-	return map[string]any{"parents": in.Parents, "committer_ranks": in.Ranks, "n": in.N,
-		"note": "commit i: committer time 1700000000+10*rank, author time reversed, message \"c<i>\\n\""}
+	return map[string]any{"parents": in.Parents, "committer_ranks": in.Ranks, "committer_times": in.Time, "n": in.N,
+		"note": "commit i: committer time as listed (1700000000+10*rank in the rank-based spaces), author time reversed, empty tree unless stated, message \"c<i>\\n\""}
 }
 
 // eNewInst builds the instance. treeOf may be nil (every commit has the empty tree).
 func eNewInst(d fw.DAG, ranks []int, treeOf func(i int) string) *eInst {
 	n := len(d.Parents)
-	in := &eInst{N: n, Parents: d.Parents, Ranks: ranks}
 	m := 0
 	for _, r := range ranks {
 		if r+1 > m {
 			m = r + 1
 		}
 	}
-	in.Time = make([]int64, n)
-	in.ATime = make([]int64, n)
+	t := make([]int64, n)
+	at := make([]int64, n)
+	for i := 0; i < n; i++ {
+		t[i] = eBase + int64(ranks[i])*eStep
+		at[i] = eBase + int64(m-1-ranks[i])*eStep
+	}
+	in := eNewInstTimes(d, t, at, treeOf)
+	in.Ranks = ranks
+	return in
+}
+
+// eNewInstTimes builds an instance with explicit committer and author times.
+func eNewInstTimes(d fw.DAG, ctime, atime []int64, treeOf func(i int) string) *eInst {
+	n := len(d.Parents)
+	in := &eInst{N: n, Parents: d.Parents}
+	in.Time = ctime
+	in.ATime = atime
 	in.Tree = make([]string, n)
 	in.Raw = make([][]byte, n)
 	in.ID = make([]string, n)
 	in.H = make([]plumbing.Hash, n)
+	// ranks of the committer times (dense), for shape predicates
+	in.Ranks = make([]int, n)
 	for i := 0; i < n; i++ {
-		in.Time[i] = eBase + int64(ranks[i])*eStep
-		in.ATime[i] = eBase + int64(m-1-ranks[i])*eStep
+		seen := map[int64]bool{}
+		for j := 0; j < n; j++ {
+			if ctime[j] < ctime[i] && !seen[ctime[j]] {
+				seen[ctime[j]] = true
+				in.Ranks[i]++
+			}
+		}
+	}
+	for i := 0; i < n; i++ {
 		in.Tree[i] = eEmptyTree
 		if treeOf != nil {
 			in.Tree[i] = treeOf(i)
